@@ -276,8 +276,8 @@ def check_scope(chk, c, hint_, lf, branch, binder_for, seen, fi):
             src_part = line.split(":", 1)[1] if (c["member"] == "Named" and ":" in line) else line
         else:
             src_part = line.split(":", 1)[1] if re.match(r"^‹[^›]*› :", line) else line
-        uses = set(re.findall(r"‹(Own|That|FBind\((?:Own|DeclPos|That)\))›", src_part))
-        uses |= set(re.findall(r"~=«‹(Own|That|FBind\((?:Own|DeclPos|That)\))›»", src_part))
+        uses = set(re.findall(r"‹(Own|That|FBind\((?:Own|DeclPos|That|EmitPos)\)|FBind\?\[[^›]*)›", src_part))
+        uses |= set(re.findall(r"~=«‹(Own|That|FBind\((?:Own|DeclPos|That|EmitPos)\)|FBind\?\[[^›]*)›»", src_part))
         if not uses:
             return
         a = c["attr"]
@@ -301,7 +301,9 @@ def check_scope(chk, c, hint_, lf, branch, binder_for, seen, fi):
         key = f"scope({c['member']},{'None' if a is None else 'attr(member=%s,action=%s)' % (a['member'] or '?', a['action'] or '?')},{c['dir']},{c['hint']})"
         ok = True
         for u in uses:
-            if u.startswith("FBind("):
+            if u == "FBind(EmitPos)" or u.startswith("FBind?["):
+                ok = False  # payload bindings are f{declaration index}; the emission counter skips ghosts, any other format is unbound
+            elif u.startswith("FBind("):
                 ok = ok and ("FBind(*)" in binders)
             else:
                 ok = ok and (f"‹{u}›" in binders)
@@ -455,3 +457,5 @@ def run(chk):
     chk.guard("R2", lambda: r2(chk))
     chk.guard("R3", lambda: r3(chk))
     chk.guard("R5", lambda: r5_r6(chk))
+    from .c05 import import_lookup_contracts
+    chk.guard("R7", lambda: import_lookup_contracts(chk, "R7", ["ghost", "lit", "pat", "type_hint", "field_attr_core", "ghosts_attr"]))
